@@ -51,6 +51,14 @@ func (c split) Recv() ([]byte, error) {
 			continue // incomplete line
 		}
 		line := buf.Bytes()
+		if err != nil {
+			// The input ended without a split byte: report what was read whole,
+			// there is no terminator to strip.
+			if len(line) == 0 {
+				return nil, err
+			}
+			return line, err
+		}
 		if n := len(line) - 1; n >= 0 {
 			return line[:n], err
 		}
